@@ -1,5 +1,5 @@
 import Feox.Props.C03
-import Feox.Fmt.CrashedTxn
+import Feox.Fmt.Found
 import Feox.Fmt.JournalOpen
 import Feox.Fmt.Commit
 import Feox.Fmt.ScanOk
